@@ -13,16 +13,22 @@ def cases_v(hs):
     rows = []
     for h in hs:
         sc = h["script"]
-        rows.append("(%d%%nat, (%d, %d, %d), (%s, %s), [%s])" % (h["id"], sc["slot_ns"], sc["spe"], sc["start_ns"], h.get("fm", "FOff"),
-                                                             "true" if h.get("ff") else "false", ";\n   ".join(h["labels"])))
+        rows.append("(%d%%nat, (%d, %d, %d), (%s, %s), [%s], [%s])" % (h["id"], sc["slot_ns"], sc["spe"], sc["start_ns"], h.get("fm", "FOff"),
+                                                                   "true" if h.get("ff") else "false",
+                                                                   "; ".join(str(v["pk"]) for v in (sc.get("vals") or [])),
+                                                                   ";\n   ".join(h["labels"])))
     return """From Coq Require Import List NArith Bool.
-From Charon Require Import Flow.Scheduler.
+From Charon Require Import Flow.Scheduler Flow.SchedulerFacts.
 Import ListNotations.
 Local Open Scope N_scope.
+Definition case0 := (nat * (N * N * N) * (fmode * bool) * list N * list label)%%type.
 Definition case := (nat * (N * N * N) * (fmode * bool) * list label)%%type.
-Definition cases : list case := [
+Definition cases0 : list case0 := [
 %s
 ].
+Definition cCL (c : case0) : list N := snd (fst c).
+Definition strip (c : case0) : case := (fst (fst c), snd c).
+Definition cases : list case := map strip cases0.
 Definition cid (c : case) := fst (fst (fst c)).
 Definition prm (c : case) := snd (fst (fst c)).
 Definition cD c := fst (fst (prm c)).
@@ -38,7 +44,11 @@ Definition monitor_hits := Eval vm_compute in
                      else []) cases.
 Definition not_wf := Eval vm_compute in
   flat_map (fun c => if wf_trace (cS c) (snd c) then [] else [(cid c, 0%%nat)]) cases.
+Definition outside_cluster := Eval vm_compute in
+  flat_map (fun c => (if vals_in_cluster (cCL c) (snd c) then [] else [(fst (fst (fst (fst c))), 0%%nat)])
+                     ++ (if trigs_in_cluster (cCL c) (snd c) then [] else [(fst (fst (fst (fst c))), 1%%nat)])) cases0.
 Print rejects.
+Print outside_cluster.
 Print monitor_hits.
 Print not_wf.
 """ % ";\n".join(rows)
@@ -102,6 +112,7 @@ def main():
     R.coverage["rule"] = ("histories of clock advances (one slot, part of a slot, several slots, exactly k slots, zero) and reorg events against scheduler.NewForT "
                           "with a scripted beacon node (per-call errors, wrong public keys, answers that change between retries, unknown / pending / exiting validators, "
                           "non-cluster validator indices), fake clock, capturing delay function, in a synctest bubble; kinds: corpus, random, offepoch (answers outside the requested epoch: model only), "
+                          "valcache (the real eth2wrap.ValidatorCache wired as app/app.go does between the beacon node and the scheduler, refresh subscriber before or after scheduleSlot, beacon node knows non-cluster validators with duties, validators endpoint: by-slot query fails / all fail / recover), "
                           "flags (fetch_att_on_block / _with_delay / both, with or without a registered fetch-only function, head events for the previous/current/next slot at arbitrary instants, repeated, and between a tick's delivery and its dispatch); "
                           "non-trivial = at least one failed or aborted resolution or at least one skipped tick; distinct by hash of the observed label sequence")
     kinds, agg = {}, {}
@@ -122,7 +133,9 @@ def main():
                                         "histories_with_reorg": sum(1 for h in hs if h["stats"]["Reorgs"] > 0),
                                         "flag_modes": {k: sum(1 for h in hs if h.get("fm") == k) for k in ("FOff", "FOn", "FOnDelay")},
                                         "histories_with_fetch_only_registered": sum(1 for h in hs if h.get("ff")),
-                                        "histories_with_head_event_between_delivery_and_dispatch": sum(1 for h in hs if h["stats"]["HookedHeads"] > 0)}
+                                        "histories_with_head_event_between_delivery_and_dispatch": sum(1 for h in hs if h["stats"]["HookedHeads"] > 0),
+                                        "histories_through_real_ValidatorCache": sum(1 for h in hs if h["script"].get("vc")),
+                                        "histories_with_by_slot_validators_failure_and_head_fallback": sum(1 for h in hs if h["stats"]["ValBySlotFailed"] > 0)}
     R.add_samples([{"script": h["script"], "labels": h["labels"][:12]} for h in hs if h.get("nontrivial")][:2])
     byid = {h["id"]: h for h in hs}
     nwf = 0
@@ -143,6 +156,15 @@ def main():
             R.violation(classify(h, idx), "observed trace violates the C15 monitor at label %d (%s)" % (idx, lab[:300]),
                         {"script": h["script"], "labels": h["labels"], "index": idx,
                          "how": "./check C15 --replay <this file> re-runs the script against /repo"})
+        for cid, which in pairs(vp.parse_marked(out, "outside_cluster")):
+            h = byid[cid]
+            key = "validators-outside-cluster-handed-to-scheduler" if which == 0 else "duty-for-validator-outside-cluster"
+            cl = [v["pk"] for v in (h["script"].get("vals") or [])]
+            bad = next((l for l in h["labels"] if (which == 0 and l.startswith("LTick") and any(int(pk) not in cl for pk in re.findall(r"V \d+ (\d+) ", l)))
+                        or (which == 1 and any(int(pk) not in cl for pk in re.findall(r"\((\d+), E ", l)))), "?")
+            R.violation(key, "cluster public keys %s; %s: %s" % (cl, key, bad[:400]),
+                        {"script": h["script"], "labels": h["labels"],
+                         "how": "./check C15 --replay <this file> re-runs the script against /repo"})
         hit_ids = {c for c, _ in hits}
         for cid, idx in rej:
             if cid in hit_ids:
@@ -152,4 +174,10 @@ def main():
                     json.dumps({"script": h["script"], "labels": h["labels"][:idx + 1]}))
     R.coverage["traces_validated_against_impl"] = len(hs)
     R.coverage["input_distribution"]["traces_outside_wf_checked_against_model_only"] = nwf
+    # reorg side: the epoch HandleChainReorgEvent is told for a chain_reorg event (app/sse listener): props/sse_reorg.py
+    try:
+        import sse_reorg
+        sse_reorg.run(R)
+    except ImportError:
+        pass
     R.finish()
